@@ -354,7 +354,7 @@ MAINLOOP:
 				watchingFile = true
 			}
 		}
-		ws.updateDirWatches(oldResolvedCfgDir, filepath.Dir(resolvedCfgPath))
+		ws.updateDirWatches(cleanedPathDir, oldResolvedCfgDir, filepath.Dir(resolvedCfgPath))
 
 		switch t := parseErr.(type) {
 		case nil:
@@ -375,7 +375,7 @@ MAINLOOP:
 
 }
 
-func (ws *WatchingSource) updateDirWatches(oldResolvedCfgDir, resolvedCfgDir string) {
+func (ws *WatchingSource) updateDirWatches(cfgDir, oldResolvedCfgDir, resolvedCfgDir string) {
 	if oldResolvedCfgDir == resolvedCfgDir {
 		return
 	}
@@ -384,6 +384,11 @@ func (ws *WatchingSource) updateDirWatches(oldResolvedCfgDir, resolvedCfgDir str
 	if addErr := ws.watcher.Add(resolvedCfgDir); addErr != nil {
 		ws.logger.Printf("failed to add new watch for symlink-resolved directory: %q: %s",
 			resolvedCfgDir, addErr)
+		return
+	}
+	if oldResolvedCfgDir == cfgDir {
+		// the config's own directory stays watched: that is where a
+		// later rename over the config path shows up.
 		return
 	}
 	if removeErr := ws.watcher.Remove(oldResolvedCfgDir); removeErr != nil {
